@@ -72,7 +72,7 @@ CHECKS['C19'] = {
                   'the computed (size, alignment) equals the HLSL structured-buffer resp. Metal ABI spec function (struct tail padding, vec3 = 4 scalars on Metal), has_same_offsets answers true only if every '
                   'struct member offset and array stride agrees recursively, and check_layout returning Ok implies that every structured-buffer element type and every typed load/store element type has '
                   'equal padded size and agreeing field offsets under both ABIs; a size-mismatch rejection reports the true padded sizes.',
-    'level_note': 'Assumed: registry getters (get_type_layer, get_underlying_type_id, function registry getters), u32::next_multiple_of / next_power_of_two contracts, HashSet key model for TypeId, '
+    'level_note': 'Assumed: registry getters (get_type_layer, get_underlying_type_id, function registry getters), u32::next_multiple_of contract (checked by a bounded Kani harness for the alignments 1..64 only; the full-domain check is a divider equivalence that does not finish), HashSet key model for TypeId (u32::next_power_of_two is no longer assumed: discharged by a complete Kani harness), '
                   'the ABI rules as written in the spec functions (DXC C-like scalar alignment; MSL spec 2.2/2.3). Preconditions not proved of the typer: acyclic containment, vector lengths 1..4, sizes < 2^24, '
                   'no literal/template types inside buffer elements, typed load/store intrinsics carry exactly one type argument. Termination of the two recursive functions is not verified '
                   '(exec_allows_no_decreases_clause). Rewrite N4 (for-loop desugaring, because Verus for-loops do not support `continue`) is applied to two loops of check_layout.',
